@@ -117,9 +117,11 @@ class Cell(Numbered_MCNP_Object):
         """
         found_class_prefixes = set()
         for key, value in self.parameters.nodes.items():
+            param_prefix = value["classifier"].prefix.value.lower()
             for input_class in PREFIX_MATCHES:
                 prefix = input_class._class_prefix()
-                if input_class in Cell._INPUTS_TO_PROPERTY and prefix in key.lower():
+                # compare the whole prefix: "u" is also a substring of "nonu" and "unc"
+                if input_class in Cell._INPUTS_TO_PROPERTY and prefix == param_prefix:
                     attr, ban_repeat = Cell._INPUTS_TO_PROPERTY[input_class]
                     key = str(value["classifier"]).lower()
                     found_class_prefixes.add(value["classifier"].prefix.value.lower())
